@@ -166,6 +166,11 @@ Definition region_of_info_src (base size prot : Z) : region :=
 Definition regions_of_info_src (l : list (Z * Z * Z)) : list region :=
   map (fun e => let '(a, b, p) := e in region_of_info_src a b p) l.
 
+(* Linux maps lines (start, end, rwx bits) -> regions, with the compiled choice of permission bit *)
+Definition regions_of_maps_src (l : list (Z * Z * Z)) : list region :=
+  map (fun e => let '(a, b, p) := e in
+                region_of_map a b (Z.testbit p G_MAPS_R_BIT) (Z.testbit p G_MAPS_W_BIT) (Z.testbit p G_MAPS_X_BIT)) l.
+
 (* ------------------------------------------------------------ from the raw records *)
 (* CrashReason::from_exception as far as the compiled GPF patterns and MemoryOperation::from_crash_reason look *)
 Definition greason_of (c : gcpu) (o : gosx) (code flags nparams info0 : Z) : greason :=
